@@ -32,6 +32,14 @@ REFERRERS = {
     "use2": '<use xlink:href="#u{k}" x="{x}" y="70"/><use xlink:href="#u{k}" x="{x}" y="82" transform="scale(.5)"/>',
     "useinv": '<use xlink:href="#u{k}" x="{x}" y="70" opacity="0"/>',
 }
+# referrers inside containers that only drop_unsupported=True removes (converted with that option)
+DROP_REFERRERS = {
+    "ina": '<a xlink:href="http://example.com/"><rect {id} x="{x}" y="10" width="20" height="20" fill="url(#{g})"/></a>',
+    "inaxf": '<a xlink:href="http://example.com/"><rect {id} x="{x}" y="10" width="20" height="20" fill="url(#{g})" transform="translate(2 30)"/></a>',
+    "inswitch": '<switch><circle {id} cx="{x}" cy="60" r="8" fill="url(#{g})" transform="scale(1.2)"/></switch>',
+    "image": '<image {id} x="{x}" y="80" width="5" height="5" xlink:href="data:image/png;base64,AAAA"/>',
+}
+REFERRERS_ALL = None
 USE_TARGET = '<rect id="u{k}" width="12" height="8" fill="url(#{g})"/>'
 
 GRAD = '<linearGradient id="{id}" x1="0" y1="0" x2="1"{extra}>{stops}</linearGradient>'
@@ -72,7 +80,7 @@ def document(setup, collision, seq, nested, clip, ids):
         idattr = f'id="{ids}{k}"' if ids else ""
         if kind in ("use2", "useinv"):
             defs += USE_TARGET.format(k=k, g=g)
-        body += REFERRERS[kind].format(id=idattr, x=5 + 24 * k, g=g, k=k)
+        body += (REFERRERS.get(kind) or DROP_REFERRERS[kind]).format(id=idattr, x=5 + 24 * k, g=g, k=k)
     if clip:
         # clipPath whose id is a prefix of / similar to shape ids
         defs += f'<clipPath id="{ids or "s"}"><rect x="0" y="0" width="60" height="60"/></clipPath>'
@@ -120,11 +128,11 @@ def reference_graph(out):
     return ids, grads, urls, hrefs
 
 
-def judge(doc):
+def judge(doc, drop=False):
     from picosvg.svg import SVG
 
     try:
-        out = SVG.fromstring(doc).topicosvg().tostring()
+        out = SVG.fromstring(doc).topicosvg(drop_unsupported=drop).tostring()
     except Exception as e:  # noqa
         return "raised:" + type(e).__name__, [], f"{type(e).__name__}: {e}", None
     ids, grads, urls, hrefs = reference_graph(out)
@@ -146,7 +154,8 @@ def judge(doc):
 
 def evaluate(case):
     setup, collision, nested, clip, ids = case["setup"], case["collision"], case["nested"], case["clip"], case["ids"]
-    kinds = list(REFERRERS)
+    drop = bool(case.get("drop"))
+    kinds = list(REFERRERS) if not drop else ["vis", "xf", "op0", "use2"] + list(DROP_REFERRERS)
     targets = ["g", "h"] if setup != "g" else ["g"]
     alphabet = [(k, t) for k in kinds for t in targets]
     outs = collections.Counter()
@@ -160,12 +169,12 @@ def evaluate(case):
             seq = (first,) + rest
             doc = document(setup, collision, seq, nested, clip, ids)
             n += 1
-            o, why, out, stats = judge(doc)
+            o, why, out, stats = judge(doc, drop)
             outs[o] += 1
             if o != "returned":
                 # every source is reference-complete and supported: failing is itself suspicious
                 if len(viols) < 8:
-                    viols.append({"sig": {"kind": "raised", "type": o}, "case": {"fam": "doc", "doc": doc}, "detail": {"why": f"conversion of a reference-complete document failed: {out}"}})
+                    viols.append({"sig": {"kind": "raised", "type": o}, "case": {"fam": "doc", "doc": doc, "drop": drop}, "detail": {"why": f"conversion of a reference-complete document failed: {out}"}})
                 continue
             if stats[0] >= 1 or collision != "none" or ids:
                 nts.add(core.h64(doc))
@@ -176,8 +185,8 @@ def evaluate(case):
                 viols.append(
                     {
                         "sig": {"kind": why[0][0], "invisible_referrer": bool(inv), "kinds": sorted({w[0] for w in why})},
-                        "case": {"fam": "doc", "doc": doc},
-                        "detail": {"why": "; ".join(w[1] for w in why), "output": out[:2500]},
+                        "case": {"fam": "doc", "doc": doc, "drop": drop},
+                        "detail": {"why": "; ".join(w[1] for w in why), "output": out[:2500], "drop_unsupported": drop},
                     }
                 )
             elif why:
@@ -203,6 +212,15 @@ def cases(tier, seed):
                                 yield {"setup": setup, "collision": collision, "nested": nested, "clip": clip, "ids": ids, "first": [k, t], "lens": ql if tier == "quick" else (lens if not (nested and clip and ids) else [1, 2])}
 
 
+def drop_cases(tier):
+    for setup in SETUPS:
+        targets = ["g", "h"] if setup != "g" else ["g"]
+        for collision in ("none", "grad:g_0"):
+            for k in ["vis", "xf", "op0", "use2"] + list(DROP_REFERRERS):
+                for t in targets:
+                    yield {"setup": setup, "collision": collision, "nested": False, "clip": False, "ids": "", "first": [k, t], "lens": [1, 2] if (tier == "thorough" or collision == "none") else [1], "drop": True}
+
+
 def run(run):
     run.rule = (
         "E2: gradient setups " + repr(SETUPS) + " x pre-existing colliding ids " + repr(COLLISIONS) + " x every referrer sequence of length <= "
@@ -211,11 +229,11 @@ def run(run):
         "gradient in defs referenced by a path, no href. Non-trivial = output has >= 1 gradient or the source had ids that must be dropped/renamed."
     )
     run.floor_nt = 500
-    run.run_cases(MOD, cases(run.tier, run.seed), chunk=1)
+    run.run_cases(MOD, itertools.chain(cases(run.tier, run.seed), drop_cases(run.tier)), chunk=1)
 
 
 def replay(case):
-    o, why, out, stats = judge(case["doc"])
+    o, why, out, stats = judge(case["doc"], bool(case.get("drop")))
     if o != "returned":
         return [{"sig": {"kind": "raised"}, "case": case, "detail": {"why": out}}]
     if why:
